@@ -69,7 +69,11 @@ pub fn run(prop: &str, tier: Tier, budget: f64, out: &mut Outcome) -> Result<(),
     if let Some((plans, rule)) = cells_of(prop, tier) {
         out.rule = rule.into();
         regression_replays(prop, out)?;
-        return run_cells(out, plans, budget, 12);
+        run_cells(out, plans, budget, 12)?;
+        if prop == "C13" {
+            c13::backend::part(tier, out)?;
+        }
+        return Ok(());
     }
     Err(MachineryError(format!("unknown property {prop}")))
 }
@@ -150,6 +154,7 @@ pub fn replay(path: &str) -> i32 {
         Some("scene") => return c18::replay(&doc),
         Some("conditioner") | Some("loopback") => return c17::replay(&doc),
         Some("protocol") => return c14::replay(&doc),
+        Some("c13-backend") => return c13::backend::replay(&doc),
         _ => {}
     }
     let cell_name = doc["cell"].as_str().unwrap();
